@@ -311,6 +311,17 @@ static void harmonics(unsigned long long& unit)
 					if(!(ep <= tp)) fail("harmonics", key, "psi_not_r_times_gradient_of_Y", "max component deviation " + mc::dec(ep) + " tol " + mc::dec(tp));
 					else mc::maxi("psi_err_over_tol", ep / tp, key);
 				}
+				else
+				{
+					// at a pole the polar formula is singular but the field (a smooth tangent vector field; non-zero there for |m| = 1) is not:
+					// the value at the pole is the limit along the meridian
+					double thn = d.th < 1 ? 1e-5 : M_PI - 1e-5;
+					std::vector<cd> VN = Vector_Spherical_Harmonics_Psi(l, m, thn, d.ph);
+					double ep = 0, sc = 0;
+					for(int k = 0; k < 3; k++) { ep = std::max(ep, std::abs(VP[k] - VN[k])); sc = std::max(sc, std::abs(VN[k])); }
+					double tp = 3e-5 * (l + 1) * (l + 1) * (1 + sc) + 1e-9;
+					if(!(ep <= tp)) fail("harmonics", key, "psi_discontinuous_at_the_pole", "Psi at the pole differs by " + mc::dec(ep) + " from Psi 1e-5 away on the same meridian (field size " + mc::dec(sc) + ")");
+				}
 			}
 		}
 }
